@@ -38,3 +38,9 @@ fn vec_replace_ev<'a>(v: &mut Vec<Ev<'a>>, i: usize, x: Ev<'a>) -> (r: Ev<'a>)
     requires i < old(v)@.len(),
     ensures r == old(v)@[i as int], final(v)@ == old(v)@.update(i as int, x),
 { std::mem::replace(&mut v[i], x) }
+
+// `Vec::extend(Vec)`: append all elements of `other`
+#[verifier::external_body]
+fn vec_extend_ev<'a>(v: &mut Vec<Ev<'a>>, other: Vec<Ev<'a>>)
+    ensures final(v)@ == old(v)@ + other@,
+{ v.extend(other) }
